@@ -58,6 +58,10 @@ def is_sexa(fmt):
 
 def printf_text(rng, fmt):
     """A plain number text suitable for a printf-style format. -> (text, value)"""
+    if fmt.endswith("d") and rng.random() < 0.1:
+        # an integer that no float holds exactly (counters, 64-bit identifiers): an integer format carries it digit for digit
+        v = rng.choice([2 ** 53 + 1, -(2 ** 53) - 1, 2 ** 63 - 1, 12345678901234567891])
+        return str(v), v
     if fmt.endswith("d") or rng.random() < 0.3:
         v = rng.choice([0, 1, -1, 7, 42, -300, 1000, 65535])
         return str(v), float(v)
@@ -74,6 +78,9 @@ def client_number(rng, fmt):
 
 def driver_number(rng, fmt):
     if is_sexa(fmt):
+        if rng.random() < 0.1:
+            # just below a full minute / degree: the rendered text rounds up to the next unit (shown as :60 or as the next one)
+            return rng.choice([20.9999, -20.9999, 1.99999999, 359.99999, -0.999999])
         return rng.choice([0.0, -0.0, 0.5, 1.25, 12.5, 23.999, 100.75, 359.5, 45.0, -0.5, -0.25, -12.5, -89.75])
     if fmt.endswith("d"):
         return rng.choice([0, 1, -5, 42, 1000, 7])
